@@ -69,7 +69,10 @@ var (
 	PoolSerial = []string{"0", "1", "350", "4294967295", "4294967296", "9223372036854775807", "9223372036854775808", "18446744073709551615"}
 	PoolShell  = []string{"/bin/bash", "/usr/bin/zsh", "/opt/my shell/sh", "/bin/false", "/sbin/nologin", "/usr/local/bin/fish", "sh"}
 	PoolPath   = []string{"/home/u/.ssh/authorized_keys", "/home/user name/.ssh/authorized_keys", "/etc/ssh/revoked_keys",
-		"/etc/ssh/revoked keys", "/", "/root/.ssh/authorized_keys2", "/данные/keys"}
+		"/etc/ssh/revoked keys", "/", "/root/.ssh/authorized_keys2", "/данные/keys",
+		// sshd builds these as home + "/" + file: not in canonical form when home is "/" or ends in "/"
+		"//.ssh/authorized_keys", "/home/cb//.ssh/authorized_keys", "/home/u/./.ssh/authorized_keys", "/home/u/../v/.ssh/authorized_keys",
+		"/var/empty/", "relative/authorized_keys", "/home/u/.ssh/authorized_keys.", "/home/%u/.ssh/%k"}
 	PoolDNS = []string{"host.example.com", "evil.example.org", "a.b", "xn--e1afmkfd.example", "bad_name!.example", "UPPER.example", "x",
 		strings.Repeat("sub-domain-label.", 18) + "example.org", strings.Repeat("a234567890.", 62) + "example"} // ~320 and ~690 characters (sshd prints up to %.700s)
 	PoolReason = []string{"expired", "not yet valid", "name is not a listed principal", "corrupt signature",
